@@ -25,7 +25,7 @@ type vfGateStore struct {
 
 func (s *vfGateStore) Store(ctx context.Context, m nodeenrollment.MessageWithId) error  { return nil }
 func (s *vfGateStore) Remove(ctx context.Context, m nodeenrollment.MessageWithId) error { return nil }
-func (s *vfGateStore) List(ctx context.Context, m proto.Message) ([]string, error)     { return nil, nil }
+func (s *vfGateStore) List(ctx context.Context, m proto.Message) ([]string, error)      { return nil, nil }
 func (s *vfGateStore) Load(ctx context.Context, m nodeenrollment.MessageWithId) error {
 	switch t := m.(type) {
 	case *types.NodeInformation:
@@ -142,8 +142,8 @@ func verifC05(nrec int, loader bool) {
 	vf.Assert("no-response-without-success", vf.Implies(err != nil, resp == nil))
 }
 
-func VerifC05KeyIdPath1() { verifC05(1, false) }
-func VerifC05KeyIdPath2() { verifC05(2, false) }
+func VerifC05KeyIdPath1()  { verifC05(1, false) }
+func VerifC05KeyIdPath2()  { verifC05(2, false) }
 func VerifC05NodeIdPath0() { verifC05(0, true) }
 func VerifC05NodeIdPath1() { verifC05(1, true) }
 func VerifC05NodeIdPath2() { verifC05(2, true) }
